@@ -1024,3 +1024,481 @@ Lemma pointer_rule_differs :
   resolve_pointer doc p_01 = None /\ resolve_pointer_legacy doc p_01 = Some (JStr [100]%N) /\
   resolve_pointer doc p_1 = Some (JStr [100]%N) /\ resolve_pointer_legacy doc p_1 = Some (JStr [100]%N).
 Proof. vm_compute. repeat split. Qed.
+
+(* ================================================================================================ *)
+(* access histories on one schema object: the operation cache                                          *)
+Lemma traverse_item_false fs p item c : traverse_item false fs p item c = (c, item_operations fs p item).
+Proof.
+  induction item as [|[m od] r IH]; cbn [traverse_item item_operations flat_map]; [reflexivity|].
+  destruct (negb (is_http_method m)) eqn:Hm; cbn [app]; [exact IH|].
+  destruct (should_skip fs p m (od_resolved od)) eqn:Hs; cbn [app]; [exact IH|].
+  unfold item_operations in IH. rewrite IH. reflexivity.
+Qed.
+
+Lemma traverse_false fs d c : traverse false fs d c = (c, get_all_operations fs d).
+Proof.
+  induction d as [|[p item] r IH]; cbn [traverse get_all_operations flat_map]; [reflexivity|].
+  rewrite traverse_item_false. unfold get_all_operations in IH. rewrite IH. reflexivity.
+Qed.
+
+(* the cached statistic of the state, when there is one, is the statistic of the filter set *)
+Definition astate_ok (d : doc) (fs : filter_set) (st : astate) : Prop :=
+  match as_stat st with Some s => s = measure_statistic fs d | None => True end.
+
+Lemma access_step_ok reuse d fs st a st' o :
+  astate_ok d fs st -> access_step reuse d fs st a = (st', o) -> astate_ok d fs st'.
+Proof.
+  unfold astate_ok. intros Hok H. destruct a; cbn [access_step] in H.
+  1-3: inversion H; subst; cbn [as_stat]; exact Hok.
+  - destruct (traverse reuse fs d (as_cache st)) as [c ops]. inversion H; subst; cbn [as_stat]; exact Hok.
+  - destruct (as_stat st) as [s|] eqn:Es; injection H as Hst Ho; rewrite <- Hst; cbn [as_stat]; [rewrite Es; exact Hok | reflexivity].
+  - injection H as Hst Ho; rewrite <- Hst. exact Hok.
+  - destruct (machine_step reuse d fs (as_cache st)) as [c r]. inversion H; subst; cbn [as_stat]; exact Hok.
+Qed.
+
+(* one step of the real code (reuse = false): what can be observed *)
+Lemma access_step_false_obs d fs st a st' o :
+  access_step false d fs st a = (st', o) ->
+  match o with
+  | OOffered l => l = offered_pairs (get_all_operations fs d)
+  | OStatistic s => astate_ok d fs st -> s = stat_tuple (measure_statistic fs d)
+  | _ => True
+  end.
+Proof.
+  intros H. destruct a; cbn [access_step] in H.
+  1-3: inversion H; subst; exact I.
+  - rewrite traverse_false in H. inversion H; subst. reflexivity.
+  - unfold astate_ok. destruct (as_stat st) as [s|] eqn:Es; inversion H; subst; intros Hok; [rewrite Hok|]; reflexivity.
+  - inversion H; subst. intros _. reflexivity.
+  - destruct (machine_step false d fs (as_cache st)) as [c r]. inversion H; subst. exact I.
+Qed.
+
+(* T1: whatever the cache holds and whatever was accessed before, a traversal offers get_all_operations fs d *)
+Lemma access_offered_transparent d fs h : forall st l,
+  In (OOffered l) (access_run false d fs h st) -> l = offered_pairs (get_all_operations fs d).
+Proof.
+  induction h as [|a r IH]; intros st l Hin; cbn [access_run] in Hin; [contradiction|].
+  destruct (access_step false d fs st a) as [st' o] eqn:Hs. destruct Hin as [Ho | Hin]; [|exact (IH _ _ Hin)].
+  subst o. exact (access_step_false_obs _ _ _ _ _ _ Hs).
+Qed.
+
+(* T2: every statistic observed (cached or measured again) is the statistic of the filter set *)
+Lemma access_statistic_fresh d fs h : forall st s,
+  astate_ok d fs st ->
+  In (OStatistic s) (access_run false d fs h st) -> s = stat_tuple (measure_statistic fs d).
+Proof.
+  induction h as [|a r IH]; intros st s Hok Hin; cbn [access_run] in Hin; [contradiction|].
+  destruct (access_step false d fs st a) as [st' o] eqn:Hs. destruct Hin as [Ho | Hin].
+  - subst o. exact (access_step_false_obs _ _ _ _ _ _ Hs Hok).
+  - exact (IH _ _ (access_step_ok _ _ _ _ _ _ _ Hok Hs) Hin).
+Qed.
+
+Lemma astate_init_ok d fs : astate_ok d fs astate_init.
+Proof. exact I. Qed.
+
+(* the reported number of selected operations is the number of operations offered by EVERY traversal of the history *)
+Lemma access_count_eq_offered d fs h t s lt ls l :
+  resolution_independent fs d = true ->
+  In (OStatistic (t, s, lt, ls)) (access_run false d fs h astate_init) ->
+  In (OOffered l) (access_run false d fs h astate_init) ->
+  s = length l.
+Proof.
+  intros Hind Hs Ho.
+  apply access_statistic_fresh in Hs; [|exact (astate_init_ok d fs)]. apply access_offered_transparent in Ho.
+  subst l. unfold offered_pairs. rewrite map_length, <- (statistic_eq_offered fs d Hind).
+  unfold stat_tuple in Hs. inversion Hs. reflexivity.
+Qed.
+
+(* ---- transitions built on a cache ---- *)
+Lemma sm_run_sound d labels items : forall c c' ts e,
+  sm_run d labels items c = (c', SmDone ts e) ->
+  forall t, In t ts -> In (t_target t) labels /\ exists l, In (SLink (t_source t) l) items.
+Proof.
+  induction items as [|it r IH]; intros c c' ts e H t Ht; cbn [sm_run] in H.
+  - inversion H; subst. contradiction.
+  - destruct it as [src l|]; [|discriminate].
+    assert (Hkeep : forall o c1 c2 rest, sm_run d labels r c1 = (c2, rest) -> sm_keep labels src l o rest = SmDone ts e ->
+              In (t_target t) labels /\ exists l0, In (SLink (t_source t) l0) (SLink src l :: r)).
+    { intros o c1 c2 rest Hr Hk. destruct rest as [|ts0 e0]; cbn [sm_keep] in Hk; [discriminate|].
+      destruct (existsb (str_eqb (op_label o)) labels) eqn:E; inversion Hk; subst; clear Hk.
+      - destruct Ht as [Ht|Ht].
+        + subst t. cbn [t_target t_source]. split; [apply existsb_str_in; exact E | exists l; left; reflexivity].
+        + destruct (IH _ _ _ _ Hr t Ht) as [A [l0 B]]. split; [exact A | exists l0; right; exact B].
+      - destruct (IH _ _ _ _ Hr t Ht) as [A [l0 B]]. split; [exact A | exists l0; right; exact B]. }
+    destruct (l_target l) as [i|ref|]; [| |discriminate].
+    + destruct (cache_by_id d c i) as [c1 res]. destruct (sm_run d labels r c1) as [c2 rest] eqn:Hr.
+      inversion H as [[Hc Hres]]; clear H. destruct res as [o|].
+      * exact (Hkeep o c1 c2 rest Hr Hres).
+      * destruct rest as [|ts0 e0]; cbn [sm_error] in Hres; [discriminate|]. inversion Hres; subst; clear Hres.
+        destruct (IH _ _ _ _ Hr t Ht) as [A [l0 B]]. split; [exact A | exists l0; right; exact B].
+    + destruct (cache_by_ref d c ref) as [c1 res]. destruct res as [o|]; [|discriminate].
+      destruct (sm_run d labels r c1) as [c2 rest] eqn:Hr. inversion H as [[Hc Hres]]; clear H.
+      exact (Hkeep o c1 c2 rest Hr Hres).
+Qed.
+
+Lemma sm_items_source ops src l : In (SLink src l) (sm_items ops) -> In src (map op_label ops).
+Proof.
+  unfold sm_items. intros H. apply in_flat_map in H. destruct H as [o [Ho Hin]].
+  destruct (links_of_raw (od_raw (o_def o))) as [ls|].
+  - apply in_map_iff in Hin. destruct Hin as [l' [E _]]. inversion E; subst. apply in_map. exact Ho.
+  - destruct Hin as [E|[]]. discriminate.
+Qed.
+
+Lemma machine_step_false_sound d fs c c' ts t :
+  machine_step false d fs c = (c', Some ts) -> In t ts ->
+  In (t_source t) (map op_label (get_all_operations fs d)) /\ In (t_target t) (map op_label (get_all_operations fs d)).
+Proof.
+  unfold machine_step. rewrite traverse_false. intros H Ht.
+  destruct (sm_run d (map op_label (get_all_operations fs d)) (sm_items (get_all_operations fs d)) c) as [c2 r] eqn:Hr.
+  inversion H as [[Hc Hf]]; clear H. destruct r as [|ts0 e]; cbn [sm_final] in Hf; [discriminate|].
+  destruct e; [discriminate|]. inversion Hf; subst; clear Hf.
+  destruct (sm_run_sound _ _ _ _ _ _ _ Hr t Ht) as [A [l B]]. split; [exact (sm_items_source _ _ _ B) | exact A].
+Qed.
+
+(* T3: after ANY access history (any cache contents), a state machine that builds has no transition from or to an
+   operation that is not offered *)
+Lemma access_no_transition_to_unselected d fs h : forall st ts src status name tgt,
+  In (OMachine (Some ts)) (access_run false d fs h st) -> In (src, status, name, tgt) ts ->
+  In src (map op_label (get_all_operations fs d)) /\ In tgt (map op_label (get_all_operations fs d)).
+Proof.
+  induction h as [|a r IH]; intros st ts src status name tgt Hin Ht; cbn [access_run] in Hin; [contradiction|].
+  destruct (access_step false d fs st a) as [st' o] eqn:Hs. destruct Hin as [Ho | Hin]; [|exact (IH _ _ _ _ _ _ Hin Ht)].
+  subst o. destruct a; cbn [access_step] in Hs.
+  1-3: inversion Hs.
+  - destruct (traverse false fs d (as_cache st)); inversion Hs.
+  - destruct (as_stat st); inversion Hs.
+  - inversion Hs.
+  - destruct (machine_step false d fs (as_cache st)) as [c res] eqn:Hm. inversion Hs as [[Hst Hobs]]; clear Hs.
+    destruct res as [ts0|]; cbn [option_map] in Hobs; [|discriminate]. inversion Hobs; subst ts; clear Hobs.
+    unfold transition_tuples in Ht. apply in_map_iff in Ht. destruct Ht as [t [Et Hin]]. inversion Et; subst; clear Et.
+    exact (machine_step_false_sound _ _ _ _ _ _ Hm Hin).
+Qed.
+
+Lemma access_transition_target_selected d fs h st ts src status name tgt :
+  In (OMachine (Some ts)) (access_run false d fs h st) -> In (src, status, name, tgt) ts ->
+  exists p m od, tgt = label_of m p /\ (exists item, In (p, item) d /\ In (m, od) item) /\
+                 is_http_method m = true /\ fs_match fs (mk_ctx p m (od_resolved od)) = true.
+Proof.
+  intros H Ht. apply offered_label_selected. exact (proj2 (access_no_transition_to_unselected _ _ _ _ _ _ _ _ _ H Ht)).
+Qed.
+
+(* ---- the lookups agree with the cache-free target resolution ---- *)
+Lemma assoc_get_map_val {A B} (f : A -> B) k (l : list (str * A)) :
+  assoc_get k (map (fun kv => (fst kv, f (snd kv))) l) = option_map f (assoc_get k l).
+Proof.
+  induction l as [|[k' v] r IH]; cbn [map assoc_get fst snd]; [reflexivity|].
+  destruct (str_eqb k k'); [reflexivity | exact IH].
+Qed.
+
+Lemma item_ids_of_ops p item : item_ids p item = map (fun io => (fst io, op_key (snd io))) (item_id_ops p item).
+Proof.
+  unfold item_ids, item_id_ops. induction item as [|[k od] r IH]; cbn [flat_map map fst snd]; [reflexivity|].
+  rewrite map_app, <- IH. f_equal.
+  destruct (is_http_method k); [|reflexivity].
+  destruct (jget s_operationId (od_raw od)) as [[]|]; reflexivity.
+Qed.
+
+Lemma doc_ids_of_ops d : doc_ids d = map (fun io => (fst io, op_key (snd io))) (doc_id_ops d).
+Proof.
+  unfold doc_ids, doc_id_ops. induction d as [|[p item] r IH]; cbn [flat_map map fst snd]; [reflexivity|].
+  rewrite map_app, <- IH, item_ids_of_ops. reflexivity.
+Qed.
+
+Lemma find_by_id_of_op d i : find_by_id d i = option_map op_key (find_op_by_id d i).
+Proof. unfold find_by_id, find_op_by_id. rewrite doc_ids_of_ops, <- map_rev. apply assoc_get_map_val. Qed.
+
+Lemma find_by_ref_of_op d r : find_by_ref d r = option_map op_key (find_op_by_ref d r).
+Proof.
+  unfold find_by_ref, find_op_by_ref. destruct (parse_ref r) as [[p m]|]; [|reflexivity].
+  destruct (assoc_get p d) as [item|]; [|reflexivity]. destruct (assoc_get m item); reflexivity.
+Qed.
+
+Lemma key_eqb_eq a b : key_eqb a b = true -> a = b.
+Proof.
+  destruct a as [a1 a2], b as [b1 b2]. unfold key_eqb. cbn [fst snd]. intros H. apply andb_true_iff in H. destruct H as [H1 H2].
+  apply str_eqb_spec in H1. apply str_eqb_spec in H2. subst. reflexivity.
+Qed.
+
+(* every entry of the cache is filed under the keys a fresh lookup would compute *)
+Definition cache_ok (d : doc) (c : ocache) : Prop :=
+  (forall k o, key_get k (oc_by_key c) = Some o -> op_key o = k) /\
+  (forall i o, assoc_get i (oc_by_id c) = Some o -> find_by_id d i = Some (op_key o)) /\
+  (forall r o, assoc_get r (oc_by_ref c) = Some o -> find_by_ref d r = Some (op_key o)).
+
+Lemma cache_ok_empty d : cache_ok d oc_empty.
+Proof. repeat split; intros ? ? H; discriminate. Qed.
+
+Lemma cache_by_id_ok d c i c' res :
+  cache_ok d c -> cache_by_id d c i = (c', res) -> cache_ok d c' /\ option_map op_key res = find_by_id d i.
+Proof.
+  intros Hok H. destruct Hok as [Hk [Hi Hr]]. unfold cache_by_id in H.
+  destruct (assoc_get i (oc_by_id c)) as [o|] eqn:Ei.
+  { inversion H; subst. split; [repeat split; assumption|]. cbn. symmetry. exact (Hi _ _ Ei). }
+  rewrite find_by_id_of_op. destruct (find_op_by_id d i) as [o|] eqn:Ef.
+  2:{ inversion H; subst. split; [repeat split; assumption | reflexivity]. }
+  destruct (key_get (op_key o) (oc_by_key c)) as [o'|] eqn:Ek.
+  { inversion H; subst. split; [repeat split; assumption|]. cbn. rewrite (Hk _ _ Ek). reflexivity. }
+  inversion H; subst; clear H. split; [|reflexivity]. unfold oc_insert. repeat split; cbn [oc_by_key oc_by_id oc_by_ref].
+  - intros k o1 H1. cbn [key_get] in H1. destruct (key_eqb k (op_key o)) eqn:E.
+    + inversion H1; subst. symmetry. exact (key_eqb_eq _ _ E).
+    + exact (Hk _ _ H1).
+  - intros j o1 H1. cbn [assoc_get] in H1. destruct (str_eqb j i) eqn:E.
+    + inversion H1; subst. apply str_eqb_spec in E. subst j. rewrite find_by_id_of_op, Ef. reflexivity.
+    + exact (Hi _ _ H1).
+  - exact Hr.
+Qed.
+
+Lemma cache_by_ref_ok d c r c' res :
+  cache_ok d c -> cache_by_ref d c r = (c', res) -> cache_ok d c' /\ option_map op_key res = find_by_ref d r.
+Proof.
+  intros Hok H. destruct Hok as [Hk [Hi Hr]]. unfold cache_by_ref in H.
+  destruct (assoc_get r (oc_by_ref c)) as [o|] eqn:Ei.
+  { inversion H; subst. split; [repeat split; assumption|]. cbn. symmetry. exact (Hr _ _ Ei). }
+  rewrite find_by_ref_of_op. destruct (find_op_by_ref d r) as [o|] eqn:Ef.
+  2:{ inversion H; subst. split; [repeat split; assumption | reflexivity]. }
+  destruct (key_get (op_key o) (oc_by_key c)) as [o'|] eqn:Ek.
+  { inversion H; subst. split; [repeat split; assumption|]. cbn. rewrite (Hk _ _ Ek). reflexivity. }
+  inversion H; subst; clear H. split; [|reflexivity]. unfold oc_insert. repeat split; cbn [oc_by_key oc_by_id oc_by_ref].
+  - intros k o1 H1. cbn [key_get] in H1. destruct (key_eqb k (op_key o)) eqn:E.
+    + inversion H1; subst. symmetry. exact (key_eqb_eq _ _ E).
+    + exact (Hk _ _ H1).
+  - exact Hi.
+  - intros j o1 H1. cbn [assoc_get] in H1. destruct (str_eqb j r) eqn:E.
+    + inversion H1; subst. apply str_eqb_spec in E. subst j. rewrite find_by_ref_of_op, Ef. reflexivity.
+    + exact (Hr _ _ H1).
+Qed.
+
+Lemma cache_by_item_ok d c p m c' res :
+  cache_ok d c -> item_access_consistent d p m = true -> cache_by_item d c p m = (c', res) -> cache_ok d c'.
+Proof.
+  intros Hok Hc H. pose proof Hok as [Hk [Hi Hr]]. unfold cache_by_item in H. unfold item_access_consistent in Hc.
+  destruct (assoc_get p d) as [item|]; [|inversion H; subst; exact Hok]. cbv zeta in H.
+  destruct (ci_find (lower_ascii m) item) as [od|]; [|inversion H; subst; exact Hok].
+  destruct (key_get (p, lower_ascii m) (oc_by_key c)) as [o'|]; [inversion H; subst; exact Hok|].
+  inversion H; subst; clear H. unfold oc_insert. repeat split; cbn [oc_by_key oc_by_id oc_by_ref].
+  - intros k o1 H1. cbn [key_get] in H1. destruct (key_eqb k (p, lower_ascii m)) eqn:E.
+    + inversion H1; subst. symmetry. exact (key_eqb_eq _ _ E).
+    + exact (Hk _ _ H1).
+  - destruct (resolved_operation_id od) as [i|]; [|exact Hi].
+    intros j o1 H1. cbn [assoc_get] in H1. destruct (str_eqb j i) eqn:E.
+    + inversion H1; subst o1. apply str_eqb_spec in E. subst j.
+      destruct (find_by_id d i) as [k|]; [|discriminate]. apply key_eqb_eq in Hc. subst k. reflexivity.
+    + exact (Hi _ _ H1).
+  - exact Hr.
+Qed.
+
+Definition sm_join (t1 : list transition) (e1 : bool) (r2 : sm_res) : sm_res :=
+  match r2 with SmAbort => SmAbort | SmDone t2 e2 => SmDone (t1 ++ t2) (e1 || e2) end.
+
+Lemma sm_run_app d labels a : forall b c,
+  sm_run d labels (a ++ b) c =
+  let (c1, r1) := sm_run d labels a c in
+  match r1 with
+  | SmAbort => (c1, SmAbort)
+  | SmDone t1 e1 => let (c2, r2) := sm_run d labels b c1 in (c2, sm_join t1 e1 r2)
+  end.
+Proof.
+  induction a as [|it a IH]; intros b c; cbn [app sm_run].
+  - destruct (sm_run d labels b c) as [c2 [|t2 e2]]; reflexivity.
+  - destruct it as [src l|]; [|reflexivity].
+    destruct (l_target l) as [i|ref|]; [| |reflexivity].
+    + destruct (cache_by_id d c i) as [c1 res]. rewrite IH.
+      destruct (sm_run d labels a c1) as [c2 [|t1 e1]].
+      * destruct res; reflexivity.
+      * destruct res as [o|]; cbn [sm_keep sm_error].
+        -- destruct (sm_run d labels b c2) as [c3 [|t2 e2]]; cbn [sm_keep sm_join];
+           destruct (existsb (str_eqb (op_label o)) labels); reflexivity.
+        -- destruct (sm_run d labels b c2) as [c3 [|t2 e2]]; reflexivity.
+    + destruct (cache_by_ref d c ref) as [c1 [o|]]; [|reflexivity]. rewrite IH.
+      destruct (sm_run d labels a c1) as [c2 [|t1 e1]]; [reflexivity|].
+      destruct (sm_run d labels b c2) as [c3 [|t2 e2]]; cbn [sm_keep sm_join]; destruct (existsb (str_eqb (op_label o)) labels); reflexivity.
+Qed.
+
+Lemma sm_final_keep labels src l o r p m :
+  op_key o = (p, m) ->
+  sm_final (sm_keep labels src l o r) =
+  match sm_final r with
+  | Some rest => if existsb (str_eqb (label_of m p)) labels
+                 then Some ({| t_source := src; t_status := l_status l; t_name := l_name l; t_target := label_of m p |} :: rest)
+                 else Some rest
+  | None => None
+  end.
+Proof.
+  intros Hk. unfold op_key in Hk. inversion Hk; subst.
+  destruct r as [|ts e]; cbn [sm_keep sm_final]; [reflexivity|]. unfold op_label.
+  destruct (existsb (str_eqb (label_of (o_method o) (o_path o))) labels); destruct e; reflexivity.
+Qed.
+
+Lemma sm_links_spec d labels src ls : forall c c' r,
+  cache_ok d c -> sm_run d labels (map (SLink src) ls) c = (c', r) ->
+  cache_ok d c' /\ sm_final r = op_transitions d labels src ls.
+Proof.
+  induction ls as [|l ls IH]; intros c c' r Hok H; cbn [map sm_run op_transitions] in *.
+  - inversion H; subst. split; [exact Hok | reflexivity].
+  - destruct (l_target l) as [i|ref|] eqn:Et; cbn [resolve_target].
+    + destruct (cache_by_id d c i) as [c1 res] eqn:Ec. destruct (cache_by_id_ok _ _ _ _ _ Hok Ec) as [Hok1 Hres].
+      destruct (sm_run d labels (map (SLink src) ls) c1) as [c2 rest] eqn:Er.
+      destruct (IH _ _ _ Hok1 Er) as [Hok2 Hrest]. inversion H; subst; clear H. split; [exact Hok2|].
+      rewrite <- Hres, <- Hrest. destruct res as [o|]; cbn [option_map].
+      * destruct (op_key o) as [p m] eqn:Ek. rewrite (sm_final_keep _ _ _ _ _ _ _ Ek).
+        destruct (sm_final rest); reflexivity.
+      * destruct rest as [|ts e]; reflexivity.
+    + destruct (cache_by_ref d c ref) as [c1 res] eqn:Ec. destruct (cache_by_ref_ok _ _ _ _ _ Hok Ec) as [Hok1 Hres].
+      rewrite <- Hres. destruct res as [o|]; cbn [option_map].
+      * destruct (sm_run d labels (map (SLink src) ls) c1) as [c2 rest] eqn:Er.
+        destruct (IH _ _ _ Hok1 Er) as [Hok2 Hrest]. inversion H; subst; clear H. split; [exact Hok2|].
+        rewrite <- Hrest. destruct (op_key o) as [p m] eqn:Ek. rewrite (sm_final_keep _ _ _ _ _ _ _ Ek).
+        destruct (sm_final rest); reflexivity.
+      * inversion H; subst. split; [exact Hok1 | reflexivity].
+    + inversion H; subst. split; [exact Hok | reflexivity].
+Qed.
+
+Lemma sm_final_join t1 e1 r2 :
+  sm_final (sm_join t1 e1 r2) =
+  match sm_final (SmDone t1 e1), sm_final r2 with Some a, Some b => Some (a ++ b) | _, _ => None end.
+Proof. destruct r2 as [|t2 e2]; destruct e1; cbn; try reflexivity. destruct e2; reflexivity. Qed.
+
+Lemma sm_ops_spec d labels ops : forall c c' r,
+  cache_ok d c -> sm_run d labels (sm_items ops) c = (c', r) ->
+  cache_ok d c' /\ sm_final r = transitions_of d labels ops.
+Proof.
+  induction ops as [|o ops IH]; intros c c' r Hok H.
+  - cbn in H. inversion H; subst. split; [exact Hok | reflexivity].
+  - unfold sm_items in H. cbn [flat_map] in H. fold (sm_items ops) in H. cbn [transitions_of].
+    destruct (links_of_raw (od_raw (o_def o))) as [ls|].
+    + rewrite sm_run_app in H.
+      destruct (sm_run d labels (map (SLink (op_label o)) ls) c) as [c1 r1] eqn:E1.
+      destruct (sm_links_spec _ _ _ _ _ _ _ Hok E1) as [Hok1 Hr1]. rewrite <- Hr1.
+      destruct r1 as [|t1 e1].
+      * inversion H; subst. split; [exact Hok1 | reflexivity].
+      * destruct (sm_run d labels (sm_items ops) c1) as [c2 r2] eqn:E2.
+        destruct (IH _ _ _ Hok1 E2) as [Hok2 Hr2]. inversion H; subst; clear H. split; [exact Hok2|].
+        rewrite sm_final_join, <- Hr2. reflexivity.
+    + cbn [app sm_run] in H. inversion H; subst. split; [exact Hok | reflexivity].
+Qed.
+
+Lemma machine_step_false_ok d fs c c' r :
+  cache_ok d c -> machine_step false d fs c = (c', r) -> cache_ok d c' /\ r = collect_transitions fs d.
+Proof.
+  unfold machine_step, collect_transitions. rewrite traverse_false. intros Hok H.
+  destruct (sm_run d (map op_label (get_all_operations fs d)) (sm_items (get_all_operations fs d)) c) as [c2 r2] eqn:E.
+  destruct (sm_ops_spec _ _ _ _ _ _ Hok E) as [Hok2 Hr]. inversion H; subst. split; [exact Hok2 | exact Hr].
+Qed.
+
+(* T4: as long as every schema[path][method] access files its operation under an operationId that a fresh lookup
+   resolves to that operation (in particular: no such access at all), the state machine built after ANY history is the
+   one a fresh schema object builds *)
+Lemma access_transitions_stable d fs h : forall st r,
+  item_accesses_consistent d h = true -> cache_ok d (as_cache st) ->
+  In (OMachine r) (access_run false d fs h st) -> r = option_map transition_tuples (collect_transitions fs d).
+Proof.
+  induction h as [|a h IH]; intros st r Hno Hok Hin; cbn [access_run] in Hin; [contradiction|].
+  cbn [item_accesses_consistent forallb] in Hno. apply andb_true_iff in Hno. destruct Hno as [Ha Hno].
+  fold (item_accesses_consistent d h) in Hno.
+  destruct (access_step false d fs st a) as [st' o] eqn:Hs.
+  assert (Hstep : cache_ok d (as_cache st') /\ (o = OMachine r -> r = option_map transition_tuples (collect_transitions fs d))).
+  { destruct a; cbn [access_step] in Hs.
+    3:{ destruct (cache_by_item d (as_cache st) path method) as [c1 res] eqn:Ec.
+        pose proof (cache_by_item_ok _ _ _ _ _ _ Hok Ha Ec) as Hok1.
+        inversion Hs; subst; cbn [as_cache fst]. split; [exact Hok1 | discriminate]. }
+    - destruct (cache_by_id d (as_cache st) id) as [c1 res] eqn:Ec. destruct (cache_by_id_ok _ _ _ _ _ Hok Ec) as [Hok1 _].
+      inversion Hs; subst; cbn [as_cache fst]. split; [exact Hok1 | discriminate].
+    - destruct (cache_by_ref d (as_cache st) ref) as [c1 res] eqn:Ec. destruct (cache_by_ref_ok _ _ _ _ _ Hok Ec) as [Hok1 _].
+      inversion Hs; subst; cbn [as_cache fst]. split; [exact Hok1 | discriminate].
+    - rewrite traverse_false in Hs. inversion Hs; subst; cbn [as_cache]. split; [exact Hok | discriminate].
+    - destruct (as_stat st); inversion Hs; subst; cbn [as_cache]; (split; [exact Hok | discriminate]).
+    - inversion Hs; subst. split; [exact Hok | discriminate].
+    - destruct (machine_step false d fs (as_cache st)) as [c1 r1] eqn:Em. destruct (machine_step_false_ok _ _ _ _ _ Hok Em) as [Hok1 Hr1].
+      inversion Hs; subst; cbn [as_cache]. split; [exact Hok1|]. intros E. inversion E. reflexivity. }
+  destruct Hstep as [Hok' Hobs]. destruct Hin as [Ho|Hin]; [exact (Hobs Ho) | exact (IH _ _ Hno Hok' Hin)].
+Qed.
+
+(* ---- witnesses ---- *)
+Definition w_s_a : str := [47;97]%N.
+Definition w_s_b : str := [47;98]%N.
+Definition w_s_get : str := [103;101;116]%N.
+Definition w_s_getX : str := [103;101;116;88]%N.
+
+(* ... and false once schema[path][method] was used: with the duplicated operationId of finding C07-F2 the link that a
+   fresh schema resolves to the excluded GET /b (no transition) resolves to GET /a after schema[/a][get] *)
+Lemma access_transitions_stable_refuted :
+  item_accesses_consistent w_doc_F2 [AItem w_s_a w_s_get; AMachine] = false /\ unique_operation_ids w_doc_F2 = false /\
+  collect_transitions (fs_of w_calls_F2) w_doc_F2 = Some [] /\
+  exists t, access_run false w_doc_F2 (fs_of w_calls_F2) [AItem w_s_a w_s_get; AMachine] astate_init
+            = [OLookup (Some (w_s_a, w_s_get)); OMachine (Some [t])] /\
+            snd t = label_of w_s_get w_s_a.
+Proof. vm_compute. repeat split. eexists. split; reflexivity. Qed.
+
+(* sentinel: a traversal that takes cache hits before the filter test offers the excluded GET /b after it was looked up
+   by its operationId - the real traversal does not *)
+Lemma cache_reuse_not_transparent :
+  let fs := fs_of w_calls_F2 in
+  let h := [AById w_s_getX; ATraverse; AMeasure] in
+  fs_match fs (mk_ctx w_s_b w_s_get (JObj [])) = false /\
+  (exists l, In (OOffered l) (access_run true w_doc_F2 fs h astate_init) /\ In (w_s_b, w_s_get) l /\ length l = 3) /\
+  (exists l, In (OOffered l) (access_run false w_doc_F2 fs h astate_init) /\ ~ In (w_s_b, w_s_get) l /\ length l = 2) /\
+  In (OStatistic (3, 2, 1, 1)) (access_run true w_doc_F2 fs h astate_init).
+Proof.
+  vm_compute. split; [reflexivity|]. split; [|split].
+  - eexists. split; [right; left; reflexivity|]. split; [right; right; left; reflexivity | reflexivity].
+  - eexists. split; [right; left; reflexivity|]. split; [|reflexivity].
+    intros [H|[H|[]]]; discriminate.
+  - right; right; left; reflexivity.
+Qed.
+
+(* non-vacuity: a history with lookups of the excluded operation, two traversals, a cached and a fresh statistic and two
+   state machines, on the document of F2 under exclude(path=/b) *)
+Example access_history_nonvacuous :
+  let fs := fs_of w_calls_F2 in
+  let h := [ATraverse; AItem [47;115;114;99]%N [80;79;83;84]%N; AById w_s_getX; AStat; AMachine; AByRef (s_paths_prefix ++ [126;49;98;47]%N ++ w_s_get); ATraverse; AMachine; AStat; AMeasure] in
+  item_accesses_consistent w_doc_F2 h = true /\ no_item_access h = false /\ resolution_independent fs w_doc_F2 = true /\
+  access_run false w_doc_F2 fs h astate_init =
+  [OOffered [([47;115;114;99]%N, [112;111;115;116]%N); (w_s_a, w_s_get)]; OLookup (Some ([47;115;114;99]%N, [112;111;115;116]%N));
+   OLookup (Some (w_s_b, w_s_get)); OStatistic (3, 2, 1, 1);
+   OMachine (Some []); OLookup (Some (w_s_b, w_s_get)); OOffered [([47;115;114;99]%N, [112;111;115;116]%N); (w_s_a, w_s_get)];
+   OMachine (Some []); OStatistic (3, 2, 1, 1); OStatistic (3, 2, 1, 1)].
+Proof. vm_compute. repeat split. Qed.
+
+Lemma access_hypotheses_satisfiable :
+  let d := w_doc_F2 in
+  let fs := fs_of w_calls_F2 in
+  let h := [ATraverse; AItem [47;115;114;99]%N [80;79;83;84]%N; AById w_s_getX; AStat; AMachine; AByRef (s_paths_prefix ++ [126;49;98;47]%N ++ w_s_get); ATraverse; AMachine; AStat; AMeasure] in
+  item_accesses_consistent d h = true /\ no_item_access h = false /\ resolution_independent fs d = true /\
+  cache_ok d (as_cache astate_init) /\
+  length (access_run false d fs h astate_init) = 10 /\
+  In (OLookup (Some (w_s_b, w_s_get))) (access_run false d fs h astate_init) /\
+  In (OMachine (Some [])) (access_run false d fs h astate_init) /\
+  In (OStatistic (3, 2, 1, 1)) (access_run false d fs h astate_init).
+Proof.
+  destruct access_history_nonvacuous as [A [A' [B C]]]. cbv zeta in A, A', B, C |- *.
+  split; [exact A|]. split; [exact A'|]. split; [exact B|]. split; [exact (cache_ok_empty _)|].
+  rewrite C. cbn [length In]. repeat split; auto 12.
+Qed.
+
+(* F6: schema[/a][POST] on a key spelled Post *)
+Definition w_doc_F6 : doc :=
+  [([47;97]%N, [([112;117;116]%N, {| od_raw := (JObj [([114;101;115;112;111;110;115;101;115]%N, (JObj [([50;48;48]%N, (JObj [([100;101;115;99;114;105;112;116;105;111;110]%N, (JStr [111;107]%N)); ([108;105;110;107;115]%N, (JObj [([76]%N, (JObj [([111;112;101;114;97;116;105;111;110;73;100]%N, (JStr [111;112;65]%N))]))]))]))]))]); od_resolved := (JObj [([114;101;115;112;111;110;115;101;115]%N, (JObj [([50;48;48]%N, (JObj [([100;101;115;99;114;105;112;116;105;111;110]%N, (JStr [111;107]%N)); ([108;105;110;107;115]%N, (JObj [([76]%N, (JObj [([111;112;101;114;97;116;105;111;110;73;100]%N, (JStr [111;112;65]%N))]))]))]))]))]) |}); ([80;111;115;116]%N, {| od_raw := (JObj [([111;112;101;114;97;116;105;111;110;73;100]%N, (JStr [111;112;65]%N)); ([114;101;115;112;111;110;115;101;115]%N, (JObj [([50;48;48]%N, (JObj [([100;101;115;99;114;105;112;116;105;111;110]%N, (JStr [111;107]%N))]))]))]); od_resolved := (JObj [([111;112;101;114;97;116;105;111;110;73;100]%N, (JStr [111;112;65]%N)); ([114;101;115;112;111;110;115;101;115]%N, (JObj [([50;48;48]%N, (JObj [([100;101;115;99;114;105;112;116;105;111;110]%N, (JStr [111;107]%N))]))]))]) |})]); ([47;98]%N, [([100;101;108;101;116;101]%N, {| od_raw := (JObj [([111;112;101;114;97;116;105;111;110;73;100]%N, (JStr [111;112;65]%N)); ([114;101;115;112;111;110;115;101;115]%N, (JObj [([50;48;48]%N, (JObj [([100;101;115;99;114;105;112;116;105;111;110]%N, (JStr [111;107]%N))]))]))]); od_resolved := (JObj [([111;112;101;114;97;116;105;111;110;73;100]%N, (JStr [111;112;65]%N)); ([114;101;115;112;111;110;115;101;115]%N, (JObj [([50;48;48]%N, (JObj [([100;101;115;99;114;105;112;116;105;111;110]%N, (JStr [111;107]%N))]))]))]) |})])].
+
+Lemma access_links_eq_transitions d fs h t s lt ls ts :
+  resolution_independent fs d = true -> unique_operation_ids d = true -> unique_labels d = true ->
+  refs_name_methods d = true -> item_accesses_consistent d h = true ->
+  In (OStatistic (t, s, lt, ls)) (access_run false d fs h astate_init) ->
+  In (OMachine (Some ts)) (access_run false d fs h astate_init) ->
+  ls = length ts.
+Proof.
+  intros H1 H2 H3 H4 Hc Hs Hm.
+  apply access_statistic_fresh in Hs; [|exact (astate_init_ok d fs)].
+  apply (access_transitions_stable d fs h astate_init _ Hc (cache_ok_empty d)) in Hm.
+  destruct (collect_transitions fs d) as [ts0|] eqn:E; [|discriminate]. cbn [option_map] in Hm. inversion Hm; subst ts.
+  unfold transition_tuples. rewrite map_length, <- (links_selected_eq_transitions fs d H1 H2 H3 ts0 H4 E).
+  unfold stat_tuple in Hs. inversion Hs. reflexivity.
+Qed.
+
+Lemma access_links_eq_transitions_refuted :
+  let h := [AItem w_s_a [80;79;83;84]%N; AMeasure; AMachine] in
+  resolution_independent fs_empty w_doc_F6 = true /\ unique_operation_ids w_doc_F6 = true /\ unique_labels w_doc_F6 = true /\
+  refs_name_methods w_doc_F6 = true /\ item_accesses_consistent w_doc_F6 h = false /\
+  access_run false w_doc_F6 fs_empty h astate_init =
+    [OLookup (Some (w_s_a, [112;111;115;116]%N)); OStatistic (2, 2, 1, 1); OMachine (Some [])] /\
+  option_map (@length transition) (collect_transitions fs_empty w_doc_F6) = Some 1.
+Proof. vm_compute. repeat split. Qed.
